@@ -39,3 +39,97 @@ hdr_total!(hdr_total_8, 8);
 hdr_total!(hdr_total_16, 16);
 //@ C01,C16 thorough | BerHeader::from_ber on every byte string of length 24
 hdr_total!(hdr_total_24, 24);
+
+macro_rules! typed_total {
+    ($name:ident, $t:ty, $n:tt) => {
+        #[kani::proof]
+        #[kani::unwind(14)]
+        #[kani::stub(alloc::fmt::format, stub_format)]
+        fn $name() {
+            let b: [u8; $n] = kani::any();
+            let r = <$t>::from_ber(&b);
+            if let Ok((t, _)) = &r {
+                assert!(t.len() + 2 <= b.len(), "typed_consumes_at_least_header");
+                kani::cover!(true, "accepted");
+            }
+            kani::cover!(r.is_err(), "rejected");
+            core::mem::forget(r);
+        }
+    };
+}
+//@ C01 quick | SnmpInt::from_ber on every byte string of length 6
+typed_total!(int_total_6, SnmpInt, 6);
+//@ C01 quick | SnmpInt::from_ber on every byte string of length 11 (content up to 9 octets)
+typed_total!(int_total_11, SnmpInt, 11);
+//@ C01 quick | SnmpBool::from_ber on every byte string of length 6
+typed_total!(bool_total_6, SnmpBool, 6);
+//@ C01 quick | SnmpNull::from_ber on every byte string of length 6
+typed_total!(null_total_6, SnmpNull, 6);
+//@ C01 quick | SnmpOctetString::from_ber on every byte string of length 6
+typed_total!(octets_total_6, SnmpOctetString, 6);
+//@ C01 quick | SnmpOid::from_ber on every byte string of length 6
+typed_total!(oid_total_6, SnmpOid, 6);
+//@ C01 quick | SnmpRelativeOid::from_ber on every byte string of length 6
+typed_total!(reloid_total_6, SnmpRelativeOid, 6);
+//@ C01 quick | SnmpObjectDescriptor::from_ber on every byte string of length 6
+typed_total!(objdesc_total_6, SnmpObjectDescriptor, 6);
+//@ C01 quick | SnmpIpAddress::from_ber on every byte string of length 7
+typed_total!(ip_total_7, SnmpIpAddress, 7);
+//@ C01 quick | SnmpCounter32::from_ber on every byte string of length 8
+typed_total!(c32_total_8, SnmpCounter32, 8);
+//@ C01 quick | SnmpGauge32::from_ber on every byte string of length 8
+typed_total!(g32_total_8, SnmpGauge32, 8);
+//@ C01 quick | SnmpTimeTicks::from_ber on every byte string of length 8
+typed_total!(tt_total_8, SnmpTimeTicks, 8);
+//@ C01 quick | SnmpUInteger32::from_ber on every byte string of length 8
+typed_total!(u32_total_8, SnmpUInteger32, 8);
+//@ C01 quick | SnmpCounter64::from_ber on every byte string of length 12
+typed_total!(c64_total_12, SnmpCounter64, 12);
+//@ C01 quick | SnmpOpaque::from_ber on every byte string of length 6
+typed_total!(opaque_total_6, SnmpOpaque, 6);
+//@ C01 quick | SnmpSequence::from_ber on every byte string of length 6
+typed_total!(seq_total_6, SnmpSequence, 6);
+//@ C01 quick | SnmpOption::from_ber on every byte string of length 6
+typed_total!(option_total_6, SnmpOption, 6);
+
+macro_rules! real_total {
+    ($name:ident, $n:tt) => {
+        #[kani::proof]
+        #[kani::unwind(14)]
+        #[kani::stub(alloc::fmt::format, stub_format)]
+        #[kani::stub(<f64 as core::str::FromStr>::from_str, stub_f64_from_str)]
+        #[kani::stub(core::str::from_utf8, stub_from_utf8)]
+        fn $name() {
+            let b: [u8; $n] = kani::any();
+            let r = SnmpReal::from_ber(&b);
+            kani::cover!(r.is_ok(), "accepted");
+            kani::cover!(r.is_err(), "rejected");
+            core::mem::forget(r);
+        }
+    };
+}
+//@ C01 quick | SnmpReal::from_ber on every byte string of length 5 (f64 parser, from_utf8 stubbed)
+real_total!(real_total_5, 5);
+//@ C01 thorough | SnmpReal::from_ber on every byte string of length 9 (f64 parser, from_utf8 stubbed)
+real_total!(real_total_9, 9);
+
+macro_rules! value_total {
+    ($name:ident, $n:tt) => {
+        #[kani::proof]
+        #[kani::unwind(14)]
+        #[kani::stub(alloc::fmt::format, stub_format)]
+        #[kani::stub(<f64 as core::str::FromStr>::from_str, stub_f64_from_str)]
+        #[kani::stub(core::str::from_utf8, stub_from_utf8)]
+        fn $name() {
+            let b: [u8; $n] = kani::any();
+            let r = crate::snmp::value::SnmpValue::from_ber(&b);
+            kani::cover!(r.is_ok(), "accepted");
+            kani::cover!(r.is_err(), "rejected");
+            core::mem::forget(r);
+        }
+    };
+}
+//@ C01 quick | SnmpValue::from_ber (all 17 value kinds) on every byte string of length 6
+value_total!(value_total_6, 6);
+//@ C01 thorough | SnmpValue::from_ber on every byte string of length 11
+value_total!(value_total_11, 11);
